@@ -93,6 +93,16 @@ func ruleColumnShapeAs(c *Ctx, p *core.Program, rule string) {
 				continue
 			}
 			c.R.Ok(rule, key, cfg, p.Pos(enc.Pos()), "contained; e.g. ["+strings.Join(ed.sampleWords(2, 10), "] [")+"]")
+			// the converse: a success path of the decoder that consumes a sequence the encoder never emits is
+			// a decoder that stops early (or reads something else) - part of an encoded column is then accepted
+			// as the whole of it
+			if pair[0] == "EncodeColumn" {
+				if ok, w := contained(dd, ed); !ok {
+					c.R.Bad(rule, key+"/exact", cfg, p.Pos(dec.Pos()), sprintf("a success path of %s consumes only [%s], which %s never emits: the decoder stops early (or reads something else), so a cut inside the rest of the column is accepted as a complete column and the following bytes are misread", pair[1], strings.Join(w, " "), pair[0]))
+				} else {
+					c.R.Ok(rule, key+"/exact", cfg, p.Pos(dec.Pos()), "every sequence the decoder accepts is one the encoder emits")
+				}
+			}
 		}
 	}
 	c.R.Count("column codec pairs["+cfg+"]", n)
@@ -593,7 +603,9 @@ func ruleOffsetsAppend(c *Ctx, p *core.Program) {
 		}
 		for i := 0; i < ct.NumMethods(); i++ {
 			m := ct.Method(i)
-			if !strings.HasPrefix(m.Name(), "Append") {
+			// Append* and whatever helper of the type does the appending for them (found by what it does:
+			// it appends to Offsets); decoders and Reset rebuild Offsets differently
+			if m.Name() == "DecodeColumn" || m.Name() == "Reset" || m.Exported() && !strings.HasPrefix(m.Name(), "Append") {
 				continue
 			}
 			fn := p.Prog.FuncValue(m)
